@@ -934,7 +934,8 @@ def binary(conf_mat):
     # FP: false positive (false alarm)
     # FN: false negative (miss)
     # TN: true negative (hit)
-    ((TN, FP), (FN, TP)) = conf_mat
+    # python integers do not overflow in the products below
+    ((TN, FP), (FN, TP)) = conf_mat.tolist()
 
     Pobs = TP+FN
     Nobs = TN+FP
